@@ -54,6 +54,12 @@ def install():
     Target.__hash__ = _target_hash
     BU.subprocess = SubprocessProxy
     BU.shutil = ShutilProxy
+    import gwf.backends.local as LOCAL
+
+    from .sock import SocketProxy, TimeProxy
+
+    LOCAL.socket = SocketProxy
+    LOCAL.time = TimeProxy
     import gwf.cli  # noqa  (imports every plugin through entry points)
     import gwf.backends.lsf as LSF
     import gwf.backends.sge as SGE
